@@ -132,7 +132,14 @@ def _split_into_branches(
         current_ind = c[0]  # First col is row_identifier
         current_parent = c[-1]  # Last col is parent in SWC specification.
         if current_parent == -1:
-            all_types.append(c[1])
+            # The first branch starts at the root and continues with the second row of
+            # the file, which determines its type (e.g. a neurite which is attached to
+            # the root of a multi-point soma and listed before the rest of the soma).
+            # For a single-point soma, the root is a branch of its own (see below).
+            if is_single_point_soma or len(content) == 1:
+                all_types.append(c[1])
+            else:
+                all_types.append(content[1, 1])
         else:
             current_type = c[1]
 
